@@ -373,51 +373,61 @@ Definition invalid_escape_diag (a : nat) (text : list N) : diag * bool :=
 Definition non_print (r : Z) : bool :=
   negb ((r =? 32)%Z || (r =? 13)%Z || (r =? 9)%Z || (r =? 10)%Z) && negb (c_print C r).
 
+(* the diagnostics lexStringContent issues about the rune [r] it popped (n0 bytes at offset p) *)
+Definition content_pre (p n0 : nat) (r : Z) : list diag :=
+  let sp0 := (p, p + n0) in
+  if (r =? 0)%Z then [mkd L_Error DNulInString [sp0; sp0]]
+  else if (r =? 10)%Z then [mkd L_Error DNewlineInString [sp0]]
+  else if non_print r then [mkd L_Warning DNonPrintInString [sp0; sp0]]
+  else [].
+
+(* the escSwitch of lexStringContent on the text after the backslash: bytes consumed after the
+   backslash, and whether the escape is accepted *)
+Inductive esc_res := EOk (m : nat) | EInvalid (m : nat).
+
+Definition escape_scan (rest1 : list N) : esc_res :=
+  let r2 := peek rest1 in
+  let n1 := pop_len rest1 in
+  let rest2 := skipn n1 rest1 in
+  if (r2 =? 110)%Z || (r2 =? 114)%Z || (r2 =? 116)%Z || (r2 =? 92)%Z || (r2 =? 39)%Z || (r2 =? 34)%Z
+  then EOk n1
+  else if (r2 =? 97)%Z || (r2 =? 98)%Z || (r2 =? 102)%Z || (r2 =? 118)%Z
+  then (if c_ext C then EOk n1 else EInvalid n1)
+  else if (r2 =? 63)%Z
+  then (if c_ask C then EOk n1 else EInvalid n1)
+  else if ((48 <=? r2) && (r2 <=? 55))%Z
+  then (if negb (c_octal C)
+        then (if (r2 =? 48)%Z then EOk n1 else EInvalid n1)
+        else EOk (n1 + take_digits is_octal_b 2 rest2))
+  else if (r2 =? 120)%Z || (r2 =? 88)%Z || (r2 =? 117)%Z || (r2 =? 85)%Z
+  then
+    if ((r2 =? 88)%Z && negb (c_upperx C)) || (((r2 =? 117)%Z || (r2 =? 85)%Z) && negb (c_olduni C))
+    then EInvalid n1
+    else
+      let rawbyte := (r2 =? 120)%Z || (r2 =? 88)%Z in
+      let digits := if rawbyte then 2 else if (r2 =? 117)%Z then 4 else 8 in
+      let consumed := take_digits is_hex_b digits rest2 in
+      let value := hex_value (firstn consumed rest2) in
+      if Nat.eqb consumed 0 then EInvalid (n1 + consumed)
+      else if negb (c_partialx C) || negb rawbyte
+      then (if negb (Nat.eqb consumed digits) || negb (valid_rune value)
+            then EInvalid (n1 + consumed) else EOk (n1 + consumed))
+      else EOk (n1 + consumed)
+  else EInvalid n1.
+
 (* lexStringContent at absolute offset [p] on the non-empty [rest]:
    (bytes consumed, diagnostics in order, saw an escape, panicked) *)
 Definition string_content (p : nat) (rest : list N) : nat * list diag * bool * bool :=
   let r := peek rest in
   let n0 := pop_len rest in
-  let sp0 := (p, p + n0) in
-  let pre :=
-    if (r =? 0)%Z then [mkd L_Error DNulInString [sp0; sp0]]
-    else if (r =? 10)%Z then [mkd L_Error DNewlineInString [sp0]]
-    else if non_print r then [mkd L_Warning DNonPrintInString [sp0; sp0]]
-    else [] in
+  let pre := content_pre p n0 r in
   if negb (r =? 92)%Z then (n0, pre, false, false)
   else
-    let rest1 := skipn n0 rest in
-    let r2 := peek rest1 in
-    let n1 := pop_len rest1 in
-    let rest2 := skipn n1 rest1 in
-    let ok (n : nat) := (n, pre, true, false) in
-    let invalid (n : nat) :=
-      let '(d, pn) := invalid_escape_diag p (firstn n rest) in (n, pre ++ [d], true, pn) in
-    if (r2 =? 110)%Z || (r2 =? 114)%Z || (r2 =? 116)%Z || (r2 =? 92)%Z || (r2 =? 39)%Z || (r2 =? 34)%Z
-    then ok (n0 + n1)
-    else if (r2 =? 97)%Z || (r2 =? 98)%Z || (r2 =? 102)%Z || (r2 =? 118)%Z
-    then (if c_ext C then ok (n0 + n1) else invalid (n0 + n1))
-    else if (r2 =? 63)%Z
-    then (if c_ask C then ok (n0 + n1) else invalid (n0 + n1))
-    else if ((48 <=? r2) && (r2 <=? 55))%Z
-    then (if negb (c_octal C)
-          then (if (r2 =? 48)%Z then ok (n0 + n1) else invalid (n0 + n1))
-          else ok (n0 + n1 + take_digits is_octal_b 2 rest2))
-    else if (r2 =? 120)%Z || (r2 =? 88)%Z || (r2 =? 117)%Z || (r2 =? 85)%Z
-    then
-      if ((r2 =? 88)%Z && negb (c_upperx C)) || (((r2 =? 117)%Z || (r2 =? 85)%Z) && negb (c_olduni C))
-      then invalid (n0 + n1)
-      else
-        let rawbyte := (r2 =? 120)%Z || (r2 =? 88)%Z in
-        let digits := if rawbyte then 2 else if (r2 =? 117)%Z then 4 else 8 in
-        let consumed := take_digits is_hex_b digits rest2 in
-        let total := n0 + n1 + consumed in
-        let value := hex_value (firstn consumed rest2) in
-        if Nat.eqb consumed 0 then invalid total
-        else if negb (c_partialx C) || negb rawbyte
-        then (if negb (Nat.eqb consumed digits) || negb (valid_rune value) then invalid total else ok total)
-        else ok total
-    else invalid (n0 + n1).
+    match escape_scan (skipn n0 rest) with
+    | EOk m => (n0 + m, pre, true, false)
+    | EInvalid m =>
+      let '(d, pn) := invalid_escape_diag p (firstn (n0 + m) rest) in (n0 + m, pre ++ [d], true, pn)
+    end.
 
 Record sstate := { sb_pos : nat; sb_diags : list diag; sb_esc : bool; sb_term : bool; sb_panic : bool }.
 
